@@ -67,6 +67,8 @@ def record_sites(program: list[dict[str, Any]], env: Env | None = None, out: dic
     for step in program:
         if step["op"] == "record":
             out[step["id"]] = env.scope
+        elif step["op"] == "log":
+            out[("log", step["id"])] = env.scope  # type: ignore[index]
         elif step["op"] == "block":
             record_sites(step["body"], env.push(step), out)
         elif step["op"] == "spawn":
@@ -110,6 +112,16 @@ class ChildErr(Exception):
 
 class DispBase(BaseException):
     pass
+
+
+class _Repr:
+    def __init__(self, text: str) -> None:
+        self.text = text
+
+    def __str__(self) -> str:
+        return self.text
+
+    __repr__ = __str__
 
 
 class LogCapture(logging.Handler):
@@ -192,6 +204,7 @@ class World:
         self.tg_enabled = True
         self.probe_defaults = True
         self.metrics: dict[str, Any] = {}
+        self.log_excs: dict[int, BaseException] = {}
         self.on_completion: Any = None
         self.seq = 0  # logical clock for spawn / block-entry ordering
         self.block_entry_seq: dict[str, int] = {}
@@ -205,6 +218,12 @@ class World:
     def fresh(self) -> int:
         self.uid += 1
         return self.uid
+
+    @staticmethod
+    def log_arg(a: Any) -> Any:
+        if isinstance(a, list) and a and a[0] == "obj":
+            return _Repr(a[1])
+        return a
 
     def resolve_option(self, opt: str, value: Any) -> Any:
         if opt == "logger":
@@ -397,6 +416,18 @@ async def run_steps(W: World, steps: list[dict[str, Any]], rng: random.Random | 
                 raise
         elif op == "mark":
             W.event("mark", step.get("tag"))
+        elif op == "log":
+            fn = {"error": ctx.log_error, "warning": ctx.log_warning, "info": ctx.log_info, "debug": ctx.log_debug}[step["level"]]
+            args = tuple(W.log_arg(a) for a in step["args"])
+            kw_log: dict[str, Any] = {}
+            if step.get("exc"):
+                W.log_excs[step["id"]] = ValueError(f"log-exc-{step['id']}")
+                kw_log["exception"] = W.log_excs[step["id"]]
+            W.event("log", step["id"])
+            try:
+                fn(step["fmt"], *args, **kw_log)
+            except BaseException as exc:  # noqa: BLE001
+                W.event("log-raised", step["id"], repr(exc))
         elif op == "record":
             from hv.gen import metricsfam
 
